@@ -45,6 +45,11 @@ func (t *Trie) Insert(word string) {
 		}
 		t = t.children[char]
 	}
+	// The word may end on a node that already existed as an inner node (it is a prefix of a longer
+	// word inserted before): mark it as a valid word too. (the shared endMarker is already valid.)
+	if l > 0 && !t.valid {
+		t.valid = true
+	}
 }
 
 func (t *Trie) Contains(word string) bool {
